@@ -198,8 +198,8 @@ class Prop:
                 # as a local value of the copy (pickling does not)
                 reads = [self.pv_reads(m) for m in models]
                 for m, rd in zip(models, reads):
-                    if m["pv"] is UNSET and rd != "<unreadable>":
-                        m["pv"] = rd
+                    if m["pv"] is UNSET and rd != "<unreadable>" and not isinstance(rd, frozenset):
+                        m["pv"] = ("either", rd)
                 self.originals.append((pool, [self.snapshot(x) for x in pool]))
                 # copy='ref' links of the copies point at the originals
                 for j, m in enumerate(models):
@@ -261,6 +261,12 @@ class Prop:
                 m["sp"], self.pv_reads(m))
 
     def pv_reads(self, m):
+        if isinstance(m["pv"], tuple) and m["pv"][0] == "either":
+            # after a deep copy: the copy may have stored what the attribute read as at
+            # that moment as a local value, or may go on following its prototype - the
+            # statement decides neither
+            m2 = dict(m, pv=UNSET)
+            return frozenset([m["pv"][1], self.pv_reads(m2)])
         if m["pv"] is not UNSET:
             return m["pv"]
         ch = m["child"]
@@ -270,9 +276,17 @@ class Prop:
             return ch[1].value
         return self._models[ch]["value"]
 
+    @staticmethod
+    def settle_pv(got, want):
+        """Where the model allows several readings of the prototyped attribute,
+        take the one the object shows (if it is one of them)."""
+        if isinstance(want[-1], frozenset) and got[-1] in want[-1]:
+            return want[:-1] + (got[-1],)
+        return want
+
     def check_state(self, x, m, what, step):
         got = self.snapshot(x)
-        want = self.model_snapshot(m)
+        want = self.settle_pv(got, self.model_snapshot(m))
         self.env.oracle_evals += 1
         if got != want:
             names = ["value", "ro", "tags", "stags", "grid", "table", "group", "child", "friend",
@@ -370,7 +384,7 @@ class Prop:
         if type(c) is not type(x) or c is x:
             raise Violation("C14.copy-class", "%s gave %r" % (mode, type(c)), step)
         got = self.snapshot(c)
-        want = self.model_snapshot(m)
+        want = self.settle_pv(got, self.model_snapshot(m))
         # value-level equality (object links compared by uid: copies keep the uid)
         self.env.oracle_evals += 1
         if got != want:
